@@ -2843,6 +2843,9 @@ bn_calc_jsf(bn_p a, bn_p b, size_t jsf_arr_size,
 		return (EOVERFLOW);
 	BN_RET_ON_ERR(bn_assign_init(&tmA, a));
 	BN_RET_ON_ERR(bn_assign_init(&tmB, b));
+	/* num[0] is read below even while a number is 0: no stale storage. */
+	bn_init_digits__int(&tmA, 1);
+	bn_init_digits__int(&tmB, 1);
 
 	while ((0 == bn_is_zero(&tmA) || 0 != d0) ||
 	    (0 == bn_is_zero(&tmB) || 0 != d1)) {
